@@ -71,7 +71,9 @@ func eventStructure(w *World, sr *SessRec, stats map[string]bool) string {
 		return fmt.Sprintf("flush/drain counts: session %d/%d, server %d/%d", len(sockFlush), nSockDrain, len(srvFlush), nSrvDrain)
 	}
 	// order within the session's trace: every flush is followed by its drain before the next flush
-	pendingDrain := false
+	// (a polling client may have its next poll served while the goroutine that wrote the previous response has
+	// not come back from its write yet: two hand-offs are then outstanding, w.OverlappingHandOffs)
+	pendingDrain := 0
 	created := map[int]int{}   // tag -> event index of packetCreate
 	flushedAt := map[int]int{} // tag -> event index of the flush carrying it
 	closeIdx := -1
@@ -79,10 +81,10 @@ func eventStructure(w *World, sr *SessRec, stats map[string]bool) string {
 	for i, e := range sr.Events {
 		switch e.Name {
 		case "flush":
-			if pendingDrain {
+			if pendingDrain > 0 && !w.OverlappingHandOffs {
 				return fmt.Sprintf("event #%d: second flush before the drain of the previous hand-off", i)
 			}
-			pendingDrain = true
+			pendingDrain++
 			if len(e.Pkts) == 0 {
 				return fmt.Sprintf("event #%d: flush with no packets", i)
 			}
@@ -101,10 +103,10 @@ func eventStructure(w *World, sr *SessRec, stats map[string]bool) string {
 				stats["batch>=2"] = true
 			}
 		case "drain":
-			if !pendingDrain {
+			if pendingDrain == 0 {
 				return fmt.Sprintf("event #%d: drain without a preceding flush", i)
 			}
-			pendingDrain = false
+			pendingDrain--
 		case "packetCreate":
 			if len(e.Pkts) == 1 && e.Pkts[0].Tag >= 0 {
 				if _, dup := created[e.Pkts[0].Tag]; dup {
